@@ -154,6 +154,11 @@ def run(R):
                       "up (in the failed-lookup branch, before the next lookup / the loop's next turn). Staging the new bindings elsewhere and "
                       "committing them at the end lets `rel(?V, ?V)` match a fact with different subject and object")
     r11(R)
+    R.rule("C05-R12", "a rule filter decides every operator: wherever the filter evaluator dispatches on the comparison operator, the dispatch names all six "
+                      "operators the rule syntax can produce (> < >= <= = !=), or its default arm leads on to another dispatch that does. A dispatch "
+                      "that knows `=` and `!=` only and otherwise falls through to `accept` makes `FILTER(?a > ?b)` a no-op; and the evaluator never "
+                      "substitutes a default number for a value that does not parse")
+    r12(R)
     R.rule("C05-R7", "match-or-bind is the last word on a binding row: after a premise position was matched against (or bound in) a row by "
                      "a match-or-bind helper, nothing overwrites entries of that row before it is emitted - a plain insert after the "
                      "test can replace the very value the test just accepted (repeated variable across positions)")
@@ -554,3 +559,88 @@ def r11(R):
              where=b.where(bad[0] if bad else None), detail=None if not bad else "after a failed lookup no insert into the looked-up map is reached before "
              "the next lookup: a variable that occurs twice in one pattern is compared with nothing and the later position overwrites the earlier")
     R.floor("C05-R11", "match-or-bind helpers (pattern x fact x &mut bindings -> bool)", n, 1)
+
+
+
+OPS6 = {">", "<", ">=", "<=", "=", "!="}
+
+
+def r12(R):
+    from c14 import const_text
+    prog = R.prog
+    b = R.body("C05-R12", "rules::evaluate_filters", crate="datalog")
+    if b is None:
+        return
+    R.saw(b)
+    loops = b.loops()
+    items = list(loops.items() if isinstance(loops, dict) else loops)
+    headers = {h for h, bl in items}
+    eqs = []
+    for c in b.calls():
+        if c.name() not in ("eq", "ne"):
+            continue
+        txt = [const_text(a) for a in c.args if a.get("k") == "const"]
+        txt = [t for t in txt if t is not None and t and all(ch in "!<>=" for ch in t)]
+        if txt:
+            eqs.append((c, txt[0]))
+    R.floor("C05-R12", "operator comparisons in evaluate_filters", len(eqs), 8)
+    # accept-by-default only after all six operators were excluded: walk the CFG from every first operator test, following only the
+    # "operator is not this one" edges; reaching the next turn of the loop (or a return) with fewer than six operators excluded means the
+    # remaining operators are accepted without any comparison
+    by_target = {}
+    for c, t in eqs:
+        if c.target is None:
+            continue
+        tb = c.target
+        term = b.blocks[tb]["term"]
+        if term["t"] != "switch":
+            continue
+        zero = [tg for v, tg in term["targets"] if v == "0"]
+        if not zero:
+            continue
+        # eq: value 0 = not equal; ne: value 0 = equal
+        neq_edge = zero[0] if c.name() == "eq" else term["otherwise"]
+        by_target[tb] = (t, neq_edge)
+    ends = set(headers)
+    bad_paths = []
+    seen_states = set()
+    work = [(0, frozenset())]
+    for h in headers:
+        for s2 in b.succ(h):
+            work.append((s2, frozenset()))
+    ndisp = 0
+    while work:
+        bb, st = work.pop()
+        if (bb, st) in seen_states:
+            continue
+        seen_states.add((bb, st))
+        if bb in by_target:
+            t, neq = by_target[bb]
+            work.append((neq, st | {t}))       # only the "not this operator" edge; the other edge handles the operator
+            continue
+        if bb in ends and st:
+            if not st >= OPS6:
+                bad_paths.append(st)
+            continue
+        if b.blocks[bb]["term"]["t"] in ("unreachable", "resume"):
+            continue
+        if b.blocks[bb]["term"]["t"] == "return":
+            if st and not st >= OPS6:
+                bad_paths.append(st)
+            continue
+        for s2 in b.succ(bb):
+            work.append((s2, st))
+    worst = sorted(bad_paths, key=len)[:1]
+    ok = not bad_paths
+    R.ob("C05-R12", "accept-only-after-all-excluded", "the evaluator lets a filter pass by default only after all six operators were excluded on that path", ok,
+         where=b.where(), detail=None if ok else "a path that tested only {%s} reaches the next filter / `true`: operators %s are accepted without any comparison"
+         % (", ".join(sorted(worst[0])), sorted(OPS6 - set(worst[0]))))
+    # no default number for a value that is not a number
+    bad = []
+    for c in b.calls():
+        if c.name() in ("unwrap_or", "unwrap_or_default") and c.args and F.op_place(c.args[0]) is not None:
+            ds = b.defs().get(F.op_place(c.args[0])["l"], [])
+            if any(d[0] == "call" and d[2].name() == "parse" for d in ds):
+                bad.append(c.ln)
+    R.ob("C05-R12", "no-default-number", "evaluate_filters never compares a value that is not a number as a default number", not bad, where=b.where(bad[0] if bad else None),
+         detail=None if not bad else "`parse::<f64>().unwrap_or(0.0)`: `FILTER(?age < 18)` accepts the value \"unknown\"")
